@@ -117,7 +117,8 @@ func applyVariant(r *rng.R, text string, multi bool, v variantSpec) string {
 var intClass = []string{"", "-1", "+1", "abc", "0", "7", "007", "2147483647", "2147483648", "4294967296",
 	"18446744073709551615", "18446744073709551616", "99999999999999999999999", "1.5", " 1", "1 ", "12a", "0x10", "١"}
 var floatClass = []string{"", "abc", "-", ".", "1.", ".5", "+1.5", "-2.5", "1..2", "1.2.3", "0", "0.0", "-0", "00012.50",
-	"123456789012345", "9999999999", "0.000001", "0.000004", " 1", "1 ", "2,5", "12a", "3.00000", "0.00001"}
+	"123456789012345", "9999999999", "0.000001", "0.000004", " 1", "1 ", "2,5", "12a", "3.00000", "0.00001",
+	"00", "0.00000", "000.000", "0.0000000001", "0.0000000009", "0.000000001"}
 var timeClass = []string{"", "abc", "2023-11-14T16:43:20Z", "2023-11-14T16:43:20.5Z", "2023-11-14T16:43:20.123456789+05:30",
 	"2023-11-14T16:43:20-0800", "2023-02-29T00:00:00Z", "2024-02-29T23:59:59.999Z", "2023-13-01T00:00:00Z",
 	"2023-11-14T24:00:00Z", "2023-11-14T16:43:60Z", "2023-11-14T16:43:20", "2023-11-14T16:43:20+25:00",
@@ -269,7 +270,7 @@ func mutate(r *rng.R, text string) (string, string) {
 		}
 	case 11:
 		if s, ok := withAttrs(func(a []kv) string {
-			return strings.Replace(joinAttrs(a), ",", pick(r, []string{", ", " ,", ",,", ",  "}), 1+r.Intn(2))
+			return strings.Replace(joinAttrs(a), ",", pick(r, []string{", ", " ,", ",,", ",  ", ""}), 1+r.Intn(2))
 		}); ok {
 			return s, "separator-noise"
 		}
@@ -307,7 +308,8 @@ func mutate(r *rng.R, text string) (string, string) {
 			if intTags[lines[k].Tag] {
 				v := pick(r, intClass)
 				if lines[k].Tag == "EXT-X-TARGETDURATION" && r.Bool(1, 2) {
-					v = pick(r, []string{"5.5", "5.", ".5", "4.x", "2147483647.9", "2147483648.0", "."})
+					v = pick(r, []string{"5.5", "5.", ".5", "4.x", "2147483647.9", "2147483648.0", ".",
+						"0", "000", "0.75", "0.99999", "1", "01", "0.", "00.5"}) // zero-valued boundary forms
 				}
 				raws[k] = "#" + lines[k].Tag + ":" + v
 				return render(), "scalar-tag"
@@ -393,4 +395,55 @@ func noise(r *rng.R, text string) string {
 		}
 	}
 	return string(b)
+}
+
+// boundaryTexts: zero-valued boundary forms of the scalars whose non-zero value callers rely
+// on (C15 structure): EXT-X-TARGETDURATION (the decoder drops the fraction), PART-TARGET,
+// EXTINF and EXT-X-PART DURATION (sub-nanosecond values truncate to zero).
+func boundaryTexts(text string) (out []string, names []string) {
+	lines, finalNL := readLines(text)
+	raws := make([]string, len(lines))
+	for i, l := range lines {
+		raws[i] = l.Raw
+	}
+	with := func(k int, repl string, name string) {
+		c := append([]string{}, raws...)
+		c[k] = repl
+		out = append(out, renderLines(c, "\n", finalNL))
+		names = append(names, name)
+	}
+	zeros := []string{"0", "000", "0.75", "0.99999", "1", "01", "0.", "00.5"}
+	fzeros := []string{"0", "0.0", "0.00000", "000.000", "0.0000000001", "0.0000000009", "0.000000001", "-0"}
+	doneTD, donePI, doneInf, donePart := false, false, false, false
+	for k, l := range lines {
+		switch {
+		case l.Tag == "EXT-X-TARGETDURATION" && !doneTD:
+			doneTD = true
+			for _, z := range zeros {
+				with(k, "#EXT-X-TARGETDURATION:"+z, "targetduration="+z)
+			}
+		case l.Tag == "EXT-X-PART-INF" && !donePI:
+			donePI = true
+			for _, z := range fzeros {
+				with(k, "#EXT-X-PART-INF:PART-TARGET="+z, "part-target="+z)
+			}
+		case l.Tag == "EXTINF" && !doneInf:
+			doneInf = true
+			for _, z := range fzeros {
+				with(k, "#EXTINF:"+z+",", "extinf="+z)
+			}
+		case l.Tag == "EXT-X-PART" && l.AttrOK && !donePart:
+			donePart = true
+			for _, z := range fzeros {
+				a := append([]kv{}, l.Attrs...)
+				for j := range a {
+					if a[j].Key == "DURATION" {
+						a[j].Val = z
+					}
+				}
+				with(k, "#EXT-X-PART:"+joinAttrs(a), "part-duration="+z)
+			}
+		}
+	}
+	return out, names
 }
